@@ -75,7 +75,7 @@ theorem unsafe_accounts_wellformed :
 /-- The sites of the files this property is about. -/
 def c17_sites : List Entry := Xt.Generated.sites.filter isC17
 
-theorem c17_sites_covered : uncovered c17_sites covered = [] :=
+theorem c17_sites_covered : uncoveredModuloMoves c17_sites covered = [] :=
   Xt.Props.C17Sites.c17_sites_covered
 
 /-- Theorems named in `covered` that live on a branch not merged yet. -/
